@@ -7,6 +7,29 @@ from opt_common import gen_caf_cases, gen_pairs, correspond_caf, pool, threshold
 from spellings import OPAQUE_KINDS, TRANSLUCENT_KINDS, spell
 
 MATCHERS = {}
+_CERT = {}
+RAT = {3.0: (3, 1), 4.5: (9, 2), 7.0: (7, 1)}
+
+
+def certify(queries):
+    """verdicts `ratio(a, b) >= thr` by the proved reference Cm.certVerdict (certVerdict_sound); an
+    undecided enclosure (never observed) falls back to the 60-digit decimal evaluation"""
+    from proto import run_lines
+    qs = [q for q in set(queries) if q not in _CERT]
+    if not qs:
+        return
+    out = run_lines(["cert %d %d %d %d %d %d %d %d" % (tuple(a) + tuple(b) + RAT[thr]) for a, b, thr in qs], chunks=8)
+    for q, o in zip(qs, out):
+        _CERT[q] = (o == "true") if o in ("true", "false") else wcag_ref.meets(q[0], q[1], q[2])
+
+
+def meets(a, b, thr):
+    key = (tuple(a), tuple(b), thr)
+    if key not in _CERT:
+        certify([key])
+    v = _CERT[key]
+    assert v == wcag_ref.meets(a, b, thr), "certified verdict and decimal reference disagree on %r" % (key,)
+    return v
 
 
 def eval_skeleton(run, case, res):
@@ -17,7 +40,7 @@ def eval_skeleton(run, case, res):
         return
     rgb, ok = res
     mn, _ = thresholds(large, very)
-    want = wcag_ref.meets(rgb, b, mn)
+    want = meets(rgb, b, mn)
     tag = "mode%d.%s" % (mode if mode in (0, 2) else 1, "ok" if ok else "fail")
     run.hit(tag)
     run.hit("table.%s%s" % ("large" if large else "normal", ".very" if very else ""))
@@ -48,7 +71,7 @@ def eval_api(run, r):
         if rb is None:
             run.violation("returned colour is not readable by a CSS consumer", case, returned=out)
             return
-    want = wcag_ref.meets(rb, r["b"], mn)
+    want = meets(rb, r["b"], mn)
     run.hit("api.%s" % ("ok" if ok else "fail"))
     if bool(ok) != want:
         run.violation("success flag differs from the WCAG verdict on the returned colour as a CSS consumer reads it (make_readable)",
@@ -68,6 +91,7 @@ def check(run):
     with pool() as p:
         cases, kinds = gen_caf_cases(run.rng, n_caf)
         impl = correspond_caf(run, cases, p)
+        certify([(tuple(res[0]), tuple(c[1]), thresholds(c[2], c[4])[0]) for c, res in zip(cases, impl) if res[0] != "raise"])
         for c, k, res in zip(cases, kinds, impl):
             eval_skeleton(run, c, res)
             nontrivial = res[0] != "raise" and not (tuple(res[0]) == tuple(c[0]) and res[1])
@@ -85,13 +109,16 @@ def check(run):
             run.hit("spelling." + tk)
             api_cases.append((ts, bs, run.rng.randrange(2), run.rng.choice([0, 1, 1, 2]), run.rng.randrange(2)))
         res = p.map(w_api, api_cases, chunksize=4)
+        certify([(tuple(r["out"]) if isinstance(r["out"], tuple) else tuple(r["rb_css"]), tuple(r["b"]), thresholds(r["case"][2], r["case"][4])[0])
+                 for r in res if "out" in r and (isinstance(r["out"], tuple) or r.get("rb_css"))])
         for r in res:
             eval_api(run, r)
             nontrivial = "out" in r and not (r.get("ok") and r.get("rb_own") == r.get("t"))
             run.count(("api", json.dumps(r["case"], default=list)), nontrivial)
         run.sample({"make_readable": api_cases[0], "result": {k: v for k, v in res[0].items() if k != "case"}})
     run.extra["correspondence"] = {"check_and_fix_contrast==Cm.checkAndFixF": n_caf}
-    run.assumptions = ["reference verdict: 60-digit decimal evaluation of the WCAG 2 formula (harness/wcag_ref.py)",
+    run.extra["certified_verdicts"] = len(_CERT)
+    run.assumptions = ["reference verdict: Cm.certVerdict (proved sound over the reals: certVerdict_sound), cross-checked on every case against a 60-digit decimal evaluation of the WCAG 2 formula (harness/wcag_ref.py)",
                        "CSS read-back of returned strings by tinycss2.color3 (independent CSS Color 3 reader)"]
 
 
